@@ -1,5 +1,5 @@
 """C10 - progressive merging never re-aligns a finished sub-alignment."""
-from vk.props.shared import weave_instances
+from vk.props.shared import weave_instances, doalign_instances
 
 META = {
     "stubs": ["error/warning: empty bodies", "msa objects built with small capacities (vk_msa.h)"],
@@ -10,4 +10,4 @@ META = {
 }
 
 def instances(tier):
-    return weave_instances(tier, "O1", "weave")
+    return weave_instances(tier, "O1", "weave") + doalign_instances(tier, "O2", "doalign")
